@@ -264,6 +264,17 @@ def run(R):
         for bb, t in pf.calls(name='split_to'):
             a = pf.origin(t['args'][1])
             R.check(term_contains(a, lambda x: x and x[0] == 'variant' and x[2] == 'Done'), 'C17.R2', 'data-whole-frames', site(pf, bb), 'split_to(%s): length of complete frames reported by find_trailers' % show(a)[:80])
+        nd = 0
+        for bb, t in pf.calls(name='data'):
+            if 'Frame' not in (t.get('fn') or '') or bb not in inp:
+                continue
+            nd += 1
+            a = pf.origin(t['args'][0])
+            ok1 = term_contains(a, lambda x: is_call(x, name='split_to') and term_contains(x[2][1], lambda y: y and y[0] == 'variant' and y[2] == 'Done'))
+            ok2 = term_contains(a, lambda x: is_call(x, name='copy_to_bytes') and term_contains(x[2][1], lambda y: y and y[0] == 'variant' and y[2] in ('Trailer',)))
+            R.check(ok1 or ok2, 'C17.R2', 'data-frame-is-complete-frames', site(pf, bb),
+                    'Frame::data(%s): must be exactly the complete frames counted by find_trailers (split_to(Done len) / copy_to_bytes(Trailer offset)); a started frame header must stay buffered' % show(a)[:100])
+        R.floor('C17.R2', 'data frames produced in the client loop', nd, 2)
         for bb, t in pf.calls(name='copy_to_bytes'):
             a = pf.origin(t['args'][1])
             if 'decoded' in show(pf.origin(t['args'][0])):
